@@ -37,31 +37,50 @@ Theorem C15_validator_bounds : forall c, utf8 c = true ->
   (exists r, bound_b (L "min") c = Ok r) /\ (exists r, bound_b (L "max") c = Ok r).
 Proof. intros c H. apply utf8_wf in H. split; apply safe_ok; eapply bound_safe; eauto; reflexivity. Qed.
 
-(* parse_message_from_content uses a character index as a byte index: refuted, and safe on the
-   complement of the class (the index is a byte boundary of the rest) *)
-Theorem C15_message_refuted :
-  utf8 msg_witness = true /\ kf_C15_msg msg_witness = true /\ validator_b msg_witness = Panic.
-Proof. exact message_refuted. Qed.
-Theorem C15_validator : forall t, utf8 t = true -> kf_C15_msg t = false -> exists r, validator_b t = Ok r.
-Proof. intros t H K. apply safe_ok, validator_safe; auto. apply utf8_wf, H. Qed.
+(* parse_message_from_content (repaired: char_indices, byte offsets): never panics; the former
+   counterexample (message e-acute) now returns the whole message *)
+Theorem C15_message : forall c, utf8 c = true -> msg_b c <> Panic.
+Proof. intros c H. apply safe_not_panic, msg_safe, utf8_wf, H. Qed.
+Theorem C15_message_witness :
+  utf8 msg_witness = true /\
+  validator_b msg_witness = Ok {| va_email := false; va_url := false;
+      va_length := Some {| v_min := Some (L "1"); v_max := None; v_msg := Some (map ascii_of_nat [195; 169]) |};
+      va_range := None |}.
+Proof. exact message_witness_ok. Qed.
+Theorem C15_validator : forall t, utf8 t = true -> exists r, validator_b t = Ok r.
+Proof. intros t H. apply safe_ok, validator_safe. apply utf8_wf, H. Qed.
 
-(* parse_rename restarts at abs_pos + 10 although trim_start may have skipped multi-byte white space *)
-Theorem C15_rename_refuted :
-  utf8 rename_witness = true /\ kf_C15_rename rename_witness = true /\ serde_b rename_witness = Panic.
-Proof. exact rename_refuted. Qed.
-Theorem C15_serde : forall t, utf8 t = true -> kf_C15_rename t = false -> exists r, serde_b t = Ok r.
-Proof. intros t H K. apply safe_ok, serde_safe; auto. apply utf8_wf, H. Qed.
+(* parse_rename (repaired: restart just after the matched _all): never panics; the former
+   counterexample (rename, two ideographic spaces, _all inside a literal) is skipped *)
+Theorem C15_parse_rename : forall t, utf8 t = true -> rename_b t <> Panic.
+Proof. intros t H. apply safe_not_panic, rename_safe, utf8_wf, H. Qed.
+Theorem C15_rename_witness :
+  utf8 rename_witness = true /\
+  serde_b rename_witness = Ok {| sa_rename := None; sa_skip := false; sa_rename_all := None |}.
+Proof. exact rename_witness_ok. Qed.
+Theorem C15_serde : forall t, utf8 t = true -> exists r, serde_b t = Ok r.
+Proof. intros t H. apply safe_ok, serde_safe. apply utf8_wf, H. Qed.
 
-(* serde-rename-rule apply_to_field as called by NamingContext: only CamelCase slices *)
-Theorem C15_camel_refuted :
-  camel_b (L "__") = Panic /\ kf_C15_camel (L "__") = true /\
-  (let ete := map ascii_of_nat [195; 169; 116; 195; 169] in utf8 ete = true /\ camel_b ete = Panic /\ kf_C15_camel ete = true).
-Proof. exact camel_refuted. Qed.
-Theorem C15_naming : forall r s, utf8 s = true -> (r = RCamel -> kf_C15_camel s = false) ->
-  exists o, apply_to_field_b r s = Ok o.
-Proof. intros r s H K. apply safe_ok, naming_safe; auto. apply utf8_wf, H. Qed.
+(* NamingContext::apply_naming_convention with the camelCase call-site guard never slices: it returns
+   for every rule and every byte string; the former counterexamples are returned unchanged *)
+Theorem C15_naming : forall r s, exists o, naming_b r s = Ok o.
+Proof. intros r s. apply safe_ok, naming_safe. Qed.
+Theorem C15_naming_witness :
+  naming_b RCamel (L "__") = Ok (L "__") /\
+  (let ete := map ascii_of_nat [195; 169; 116; 195; 169] in utf8 ete = true /\ naming_b RCamel ete = Ok ete).
+Proof. exact naming_witness_ok. Qed.
 Theorem C15_event_name_to_function : forall s, exists o, event_fn_b s = Ok o.
 Proof. intros s. apply safe_ok, event_fn_safe. Qed.
+
+(* compute_variant_name (new with the variant-rule repair) calls apply_to_variant, whose CamelCase arm
+   slices variant[..1]: refuted for a variant name starting with a non-ASCII letter, safe otherwise *)
+Theorem C15_variant_refuted :
+  let etat := map ascii_of_nat [195; 137; 116; 97; 116] in
+  utf8 etat = true /\ kf_C15_variant etat = true /\ apply_to_variant_b RCamel etat = Panic.
+Proof. exact variant_refuted. Qed.
+Theorem C15_variant : forall r s, utf8 s = true -> (r = RCamel -> kf_C15_variant s = false) ->
+  exists o, apply_to_variant_b r s = Ok o.
+Proof. intros r s H K. apply safe_ok, variant_safe; auto. apply utf8_wf, H. Qed.
 
 (* termination: the fuel of every fuelled string recursion suffices, also inside the defect classes *)
 Theorem C15_total : forall s, utf8 s = true ->
@@ -74,24 +93,26 @@ Proof. intros s H. apply utf8_wf in H. repeat split.
 
 (* non-vacuity: the premises are satisfiable on non-trivial inputs *)
 Definition ex_bytes (l : list nat) : str := map ascii_of_nat l.
-(* a length attribute whose message is e-acute followed by a: multi-byte message outside the class (silently cut, no panic) *)
+(* a length attribute whose message is e-acute followed by a: returned whole (it used to be cut) *)
 Example C15_ex_validator :
   let t := L "length (min = 1 , message = """ ++ ex_bytes [195; 169; 97] ++ L """)" in
-  utf8 t = true /\ kf_C15_msg t = false /\
+  utf8 t = true /\
   validator_b t = Ok {| va_email := false; va_url := false;
-                        va_length := Some {| v_min := Some (L "1"); v_max := None; v_msg := Some (ex_bytes [195; 169]) |};
+                        va_length := Some {| v_min := Some (L "1"); v_max := None; v_msg := Some (ex_bytes [195; 169; 97]) |};
                         va_range := None |}.
 Proof. vm_compute. auto. Qed.
-(* rename_all is skipped by the loop (restart offset + 10), then a rename with a multi-byte value is found *)
+(* rename_all is skipped by the loop, then a rename with a multi-byte value is found *)
 Example C15_ex_serde :
   let t := L "rename_all = ""camelCase"" , rename = ""x" ++ ex_bytes [195; 169] ++ L """" in
-  utf8 t = true /\ kf_C15_rename t = false /\
+  utf8 t = true /\
   serde_b t = Ok {| sa_rename := Some (L "x" ++ ex_bytes [195; 169]); sa_skip := false; sa_rename_all := Some (L "camelCase") |}.
 Proof. vm_compute. auto. Qed.
 Example C15_ex_naming :
   let n := L "user_" ++ ex_bytes [195; 169] ++ L "_id" in
-  utf8 n = true /\ kf_C15_camel n = false /\ apply_to_field_b RCamel n = Ok (L "user" ++ ex_bytes [195; 169] ++ L "Id").
-Proof. vm_compute. auto. Qed.
+  utf8 n = true /\ naming_b RCamel n = Ok (L "user" ++ ex_bytes [195; 169] ++ L "Id") /\
+  kf_C15_variant (L "InProgress") = false /\ apply_to_variant_b RCamel (L "InProgress") = Ok (L "inProgress") /\
+  apply_to_variant_b RScreamingSnake (L "InProgress") = Ok (L "IN_PROGRESS").
+Proof. vm_compute. auto 6. Qed.
 (* the recorded data point of DESIGN section 11 and an input with multi-byte characters and unbalanced brackets *)
 Example C15_ex_types :
   parse_type_structure_b (L "Result<(HashMap<String, User>, Inner), String>") = Ok (TRes (TCustom (L "(HashMap<String"))) /\
@@ -109,11 +130,15 @@ Print Assumptions C15_add_types_prefix.
 Print Assumptions C15_parse_rename_all.
 Print Assumptions C15_validator_content.
 Print Assumptions C15_validator_bounds.
-Print Assumptions C15_message_refuted.
+Print Assumptions C15_message.
+Print Assumptions C15_message_witness.
 Print Assumptions C15_validator.
-Print Assumptions C15_rename_refuted.
+Print Assumptions C15_parse_rename.
+Print Assumptions C15_rename_witness.
 Print Assumptions C15_serde.
-Print Assumptions C15_camel_refuted.
 Print Assumptions C15_naming.
+Print Assumptions C15_naming_witness.
 Print Assumptions C15_event_name_to_function.
+Print Assumptions C15_variant_refuted.
+Print Assumptions C15_variant.
 Print Assumptions C15_total.
